@@ -49,7 +49,8 @@ type Emb2 struct {
 // IThing is the interface embedded by EmbIface.
 type IThing interface{ Thing() }
 
-func (*Inner) Thing() {}
+// value receiver: both Inner and *Inner can be held by the interface
+func (Inner) Thing() {}
 
 // EmbIface embeds an interface that holds *Inner or nothing.
 type EmbIface struct {
